@@ -112,6 +112,19 @@ def defrag (s : Stk) (max : Int) : Except DErr Stk := do
 /-- the scan limit `calculateDefragMax(max...)` -/
 def defragMax (args : List Int) : Int := Gen.calculateDefragMax (args.length : Int) (args.headD 0)
 
+/-- the body of the loop `for i := 0; i < r.Len(); i++ { slice, _ := r.Index(i) … }` in `Stack.Defrag`:
+a Stack (any alias form) is defragmented, a Condition (any alias form) has its expression
+defragmented when that is a Stack, anything else (nil, leaves, zero-valued instances) is skipped.
+`rec` is `Stack.Defrag(m)` itself. -/
+def defragElem (rec : Stk → Except DErr Stk) : Val → Except DErr Val
+  | .stk f c xs => do
+      let r ← rec { cfg := c, xs := xs }
+      pure (Val.stk f r.cfg r.xs)
+  | .cnd f c kw op (.stk f2 c2 xs2) => do
+      let r ← rec { cfg := c2, xs := xs2 }
+      pure (Val.cnd f c kw op (.stk f2 r.cfg r.xs))
+  | v => pure v
+
 /-- `Stack.Defrag(max...)` on an initialised instance, recursing into nested Stacks (any alias form)
 and into the Stack expression of nested Conditions. `fuel` bounds the nesting depth. -/
 def Defrag : (fuel : Nat) → (args : List Int) → Stk → Except DErr Stk
@@ -121,15 +134,8 @@ def Defrag : (fuel : Nat) → (args : List Int) → Stk → Except DErr Stk
       let m := defragMax args
       let s1 ← s.defrag m
       if s1.IsNesting then do
-        -- for i := 0; i < r.Len(); i++ { slice, _ := r.Index(i) … }: positions 0..Len-1 are the elements in order
-        let xs' ← s1.xs.mapM (fun v => match v with
-          | .stk f c xs => do
-              let r ← Defrag fuel [m] { cfg := c, xs := xs }
-              pure (Val.stk f r.cfg r.xs)
-          | .cnd f c kw op (.stk f2 c2 xs2) => do
-              let r ← Defrag fuel [m] { cfg := c2, xs := xs2 }
-              pure (Val.cnd f c kw op (.stk f2 r.cfg r.xs))
-          | v => pure v)
+        -- positions 0..Len-1 through r.Index(i) are the elements in order; sub.Defrag(m) passes m on
+        let xs' ← s1.xs.mapM (defragElem (fun t => Defrag fuel [m] t))
         .ok { s1 with xs := xs' }
       else .ok s1
 
